@@ -398,8 +398,10 @@ class Weaver:
         for (frm, to, rid) in unit.rewrites:
             pat = [t.text for t in tokenize(expand(frm, ctx))]
             hits = _find_seq(toks, bo, bc + 1, pat)
+            # a rewrite whose pattern no longer occurs has nothing to rewrite: the text goes to Verus as it is (if what
+            # replaced the pattern is outside Verus's subset the file is rejected by the front end => undecided, never an alarm)
             if not hits:
-                raise LostAnchor("unit %s: rewrite pattern %r not found" % (unit.name, frm))
+                fired(rid + ":absent", 1)
             for h in hits:
                 replace[h] = (h + len(pat) - 1, expand(to, ctx), "src", None)
             fired(rid, len(hits))
